@@ -84,7 +84,7 @@ def date(  # noqa: PLR0912 PLR0911
         else:
             try:
                 dat = parser.parse(dat)
-            except parser.ParserError:
+            except (parser.ParserError, OverflowError):
                 # Input is returned unchanged.
                 return str(dat)
     elif isinstance(dat, int):
